@@ -770,8 +770,6 @@ class C15(Base):
         if crowd:
             w.probe("c15_crowd_worlds")
         for s in w.all_slots():
-            if s.how == "construct_failed":
-                continue
             if crowd and isinstance(s.sid, int) and s.sid > 3:
                 continue        # crowd members: a few are baselined
             key = json.dumps([s.cfg, s.passes_wanted], sort_keys=True)
@@ -779,10 +777,23 @@ class C15(Base):
                 res = self.helper.ask(
                     [["new", 0, s.cfg, s.passes_wanted, "every"],
                      ["drain", 0], ["over", 0]])
-                memo[key] = [tuple(t) for t in res["0"]["stream"]]
+                memo[key] = ([tuple(t) for t in res["0"]["stream"]],
+                             res["0"].get("exc"))
                 w.probe("c15_baselines")
-            base = memo[key]
+            base, base_exc = memo[key]
             mine = s.stream
+            mine_exc = s.construct_exc or (s.raise_exc[0] if s.raise_exc
+                                           else None)
+            if mine_exc != base_exc and mine_exc is not None:
+                # an exception where the same configuration, alone in a
+                # pristine process, raises none (or another one)
+                self.own(w, "stream_differs_from_fresh", s,
+                         f"{mine_exc} raised after {len(mine)} actions; the "
+                         f"pristine-process run of the same configuration "
+                         f"{'raised ' + base_exc if base_exc else 'ran on'}")
+                continue
+            if s.how == "construct_failed":
+                continue
             if mine[:len(base)] != base[:len(mine)]:
                 j = next((i for i, (x, y) in enumerate(zip(mine, base))
                           if x != y), min(len(mine), len(base)))
